@@ -14,7 +14,8 @@
 (***************************************************************************)
 EXTENDS TMActions, Json, SequencesExt
 
-CONSTANTS Depth, OutDir, SUBDIFF
+CONSTANTS Depth, OutDir, SUBDIFF,
+          LAYOUT    \* height layout the harness realises the height indices with ("slash" | "dec", see Cases_TMClient)
 
 VARIABLES S, sched, todo
 
@@ -146,9 +147,9 @@ MTrustedExpired(S0, i, rv) ==
           ELSE << UpdAct(i, t - S0.now, Hdr(c, Sel(hs, rv[3]), th, t, rv[5], rv[6], rv[7])) >>
 
 \* misbehaviour: k = 0 fork at one height, 1 time violation across heights, 2 identical headers (no conflict),
-\* 3 ordered headers (no conflict), 4 a mutated header, 5 header1 below header2
+\* 3 ordered headers (no conflict), 4 a mutated header, 5 header1 below header2, 6 the same mutation in both headers
 MMisb(S0, i, d, rv) ==
-    LET c == S0.cl[i]  t == S0.now + d  k == rv[2] % 6
+    LET c == S0.cl[i]  t == S0.now + d  k == rv[2] % 7
         ths == { x \in DOMAIN c.cons : ~Expired(c.cons[x].ts, c.par.tp, t) }
     IN IF ths = {} THEN <<>> ELSE
        LET th == Sel(ths, rv[3])
@@ -166,6 +167,7 @@ MMisb(S0, i, d, rv) ==
                [] k = 3 -> << MisbAct(i, d, g(hi, tt + 1, "r1"), g(lo, tt, "r1")) >>
                [] k = 4 -> << MisbAct(i, d, Mut(c, g(hi, tt, "r1"), t, Sel(MutKinds, rv[7])), g(hi, tt, "r2")) >>
                [] k = 5 -> << MisbAct(i, d, g(lo, tt, "r1"), g(hi, tt, "r2")) >>
+               [] k = 6 -> << MisbAct(i, d, Mut(c, g(hi, tt, "r1"), t, Sel(MutKinds, rv[7])), Mut(c, g(hi, tt, "r2"), t, Sel(MutKinds, rv[7]))) >>
 
 \* recovery of subject i with substitute j: make the subject non-Active (k = 0 freeze by a conflicting header,
 \* 1 let it expire while the substitute is refreshed), lift the substitute above it, recover
@@ -182,7 +184,11 @@ MRecover(S0, i, j, rv) ==
     IN IF hs = {} \/ cj.latest \notin DOMAIN cj.cons \/ S1b.now > MaxT THEN a1 ELSE
        LET ts2 == IF S1b.now > cj.cons[cj.latest].ts THEN S1b.now ELSE cj.cons[cj.latest].ts + 1
            a2 == UpdAct(j, S1b.now - S1.now, Hdr(cj, Sel(hs, rv[3]), cj.latest, ts2, 2, 0, 1))
-       IN a1 \o << a2, RecAct(i, j, IF k = 0 THEN rv[4] % 2 ELSE 1 + (rv[4] % 2)) >>
+           a3 == RecAct(i, j, IF k = 0 THEN rv[4] % 2 ELSE 1 + (rv[4] % 2))
+           \* afterwards (every second time): a header below / next to the recovered consensus state whose time is
+           \* not strictly between its neighbours -- the recovered state is a neighbour like any other
+           S3 == Step(Step(S1, a2).S, a3).S
+       IN a1 \o << a2, a3 >> \o (IF rv[6] % 2 = 0 /\ i \in Live(S3, S3.now) THEN MBadTime(S3, i, 0, rv) ELSE <<>>)
 
 \* upgrade of client i with plan variant v: update to a new latest height whose root is the plan snapshot, upgrade
 MUpgrade(S0, i, d, rv) ==
@@ -268,7 +274,7 @@ Next ==
           /\ todo' = Tail(plan)
           /\ (Len(sched') = Depth \/ ~Bounded(r.S)) =>
                 JsonSerialize(OutDir \o "/s" \o ToString(TLCGet("stats").traces) \o "_" \o ToString(RandomElement(1..1000000)) \o ".json",
-                              [ubd0 |-> UBD0, acts |-> sched'])
+                              [ubd0 |-> UBD0, lay |-> LAYOUT, acts |-> sched'])
 
 Spec == Init /\ [][Next]_<<S, sched, todo>>
 =============================================================================
